@@ -108,6 +108,14 @@ class Store:
         return ast.unparse(self.node.targets[0])
 
 
+class NeedFork(Exception):
+    """A data-dependent branch on scalar shell data (angular momenta ...) that no handler decides: the driver re-runs the
+    kernel once per outcome (choices are keyed by function and line)."""
+
+    def __init__(self, key, node):
+        self.key, self.node = key, node
+
+
 class Extractor:
     """Evaluates a kernel body; collects tables, stores and (optionally) the value of named results."""
 
@@ -201,6 +209,27 @@ class Extractor:
             h = self.env.get("__if__")
             if h is not None and h(self, st):
                 return
+            choices = self.shared.get("choices")
+            if choices is not None:
+                # a scalar, data-dependent condition (e.g. a comparison of angular momenta, or a flag bound from one)
+                try:
+                    tv = self.expr(st.test)
+                except AnalysisError:
+                    tv = None
+                if isinstance(tv, bool):
+                    for s2 in (st.body if tv else st.orelse):
+                        self.stmt(s2)
+                    return
+                if isinstance(tv, SV) and not tv.labels and tv.e.has(sp.Function("Indicator")):
+                    key = f"{self.func.name}:{st.lineno}"
+                    if key not in choices:
+                        raise NeedFork(key, st)
+                    self.env["__flag__" + key] = choices[key]
+                    if isinstance(st.test, ast.Name):
+                        self.env[st.test.id] = choices[key]  # later `if flag:` tests follow the same outcome
+                    for s2 in (st.body if choices[key] else st.orelse):
+                        self.stmt(s2)
+                    return
             self.err("branch inside a recursion kernel", st)
         if isinstance(st, (ast.Pass, ast.Raise)):
             return
@@ -1025,6 +1054,19 @@ class Extractor:
             self.shared.setdefault("order_tables", {})[oid] = rows
             ORDER_TABLES[oid] = rows
             return SV(OrderTab(sp.Integer(oid), sp.Symbol("row"), c), [Lab(("ordrow", oid)), Lab("xyz")])
+        if short == "swapaxes" and len(e.args) == 3:
+            x = self.expr(e.args[0])
+            a1, a2 = self.expr(e.args[1]), self.expr(e.args[2])
+            if isinstance(x, SV) and x.labels is not None and isinstance(a1, SV) and isinstance(a2, SV) and a1.e.is_number and a2.e.is_number:
+                n_ax = len(x.labels)
+                i1, i2 = int(a1.e) % n_ax, int(a2.e) % n_ax
+                order = list(range(n_ax))
+                order[i1], order[i2] = order[i2], order[i1]
+                fake = ast.Call(func=ast.Attribute(value=ast.Name(id="np", ctx=ast.Load()), attr="transpose", ctx=ast.Load()),
+                                args=[e.args[0], ast.Tuple(elts=[ast.Constant(value=k) for k in order], ctx=ast.Load())], keywords=[])
+                ast.copy_location(fake, e)
+                ast.fix_missing_locations(fake)
+                return self.numpy("transpose", fake)
         if short == "moveaxis" and len(e.args) == 3:
             x = self.expr(e.args[0])
             src, dst = self.expr(e.args[1]), self.expr(e.args[2])
